@@ -28,7 +28,7 @@ Ident(n) == [i \in 1..n |-> i - 1]
 
 NeedsKeep == {"divide", "filter", "distribute"}
 NeedsSize == {"rebatch", "divide", "filter", "distribute", "batchover", "pair"}
-AnyArrival == {"sort", "rebatch", "filterempty", "divide", "filter", "distribute", "pair", "workers"}
+AnyArrival == {"sort", "rebatch", "filterempty", "divide", "filter", "distribute", "pair", "workers", "complete"}
 TwoStreams == {"concat", "pair"}
 
 Init ==
